@@ -266,4 +266,169 @@ theorem lockInv_reach (cfg : Cfg) (hs us cache) (σ : State) (h : Reach cfg (ini
   | init => exact lockInv_init hs us cache
   | step a _ hstep ih => exact lockInv_step cfg _ _ a ih hstep
 
+/-! ## no reachable state has every thread blocked -/
+
+theorem stepH_enabled (cfg : Cfg) (σ : State) (c : Conn) :
+    (stepH cfg σ c).isSome = (match σ.hpc c with
+      | .start _ => decide (σ.disp = none)
+      | .wantSub _ => decide (σ.sub = none)
+      | .wantUpd _ m _ => decide (σ.upd m = none)
+      | .done => false
+      | _ => true) := by
+  unfold stepH
+  repeat' split
+  all_goals simp_all
+
+/-- the receiver an updater may always choose -/
+def someArg (σ : State) (k : Nat) : Conn :=
+  match σ.upc k with
+  | .sending _ _ _ (x :: _) => x
+  | _ => 0
+
+theorem stepU_enabled (cfg : Cfg) (σ : State) (k : Nat) :
+    (stepU cfg σ k (someArg σ k)).isSome = (match σ.upc k with
+      | .idle => (match σ.uscript k with | [] => true | (m, _, _) :: _ => decide (σ.upd m = none))
+      | .wantSub _ _ _ => decide (σ.sub = none)
+      | .done => false
+      | _ => true) := by
+  cases hpc : σ.upc k with
+  | idle =>
+    simp only [stepU, hpc]
+    split <;> simp_all
+    split <;> simp_all
+    split <;> simp_all
+  | wantSub m p e => simp only [stepU, hpc]; split <;> simp_all
+  | sending m p e l => cases l <;> simp [stepU, someArg, hpc]
+  | relUpd m em => simp [stepU, hpc]
+  | done => simp [stepU, hpc]
+
+theorem no_deadlock (cfg : Cfg) (σ : State) (hI : LockInv σ) (t : Tid) (ht : finished σ t = false) :
+    ∃ a, (step cfg σ a).isSome = true := by
+  cases hsub : σ.sub with
+  | some t' =>
+    have := (hI.sub t').2 hsub
+    cases t' with
+    | h c =>
+      refine ⟨⟨.h c, 0⟩, ?_⟩
+      simp only [step, stepH_enabled]
+      simp only [holdsSub] at this
+      cases hpc : σ.hpc c <;> simp_all
+    | u k =>
+      refine ⟨⟨.u k, someArg σ k⟩, ?_⟩
+      simp only [step, stepU_enabled]
+      simp only [holdsSub] at this
+      cases hpc : σ.upc k <;> simp_all
+  | none =>
+    by_cases hupd : ∃ m t', σ.upd m = some t'
+    · obtain ⟨m, t', hm⟩ := hupd
+      have := (hI.upd m t').2 hm
+      cases t' with
+      | h c =>
+        refine ⟨⟨.h c, 0⟩, ?_⟩
+        simp only [step, stepH_enabled]
+        simp only [holdsUpd] at this
+        cases hpc : σ.hpc c <;> simp_all
+      | u k =>
+        refine ⟨⟨.u k, someArg σ k⟩, ?_⟩
+        simp only [step, stepU_enabled]
+        simp only [holdsUpd] at this
+        cases hpc : σ.upc k <;> simp_all
+    · have hfree : ∀ m, σ.upd m = none := by
+        intro m
+        cases h : σ.upd m with
+        | none => rfl
+        | some t' => exact absurd ⟨m, t', h⟩ hupd
+      cases hdisp : σ.disp with
+      | some c =>
+        have := (hI.disp c).2 hdisp
+        refine ⟨⟨.h c, 0⟩, ?_⟩
+        simp only [step, stepH_enabled]
+        have hu := fun m => (hI.upd m (.h c)).1
+        simp only [holdsUpd] at hu
+        have hs := (hI.sub (.h c)).1
+        simp only [holdsSub] at hs
+        cases hpc : σ.hpc c <;> simp_all
+      | none =>
+        cases t with
+        | h c =>
+          refine ⟨⟨.h c, 0⟩, ?_⟩
+          simp only [step, stepH_enabled]
+          simp only [finished] at ht
+          cases hpc : σ.hpc c <;> simp_all
+        | u k =>
+          refine ⟨⟨.u k, someArg σ k⟩, ?_⟩
+          simp only [step, stepU_enabled]
+          simp only [finished] at ht
+          cases hpc : σ.upc k <;> simp_all
+          split <;> simp_all
+
+/-! ## tables, scopes and the Silent invariant -/
+
+def tableHas (σ : State) (c : Conn) : Scope → Bool
+  | .all => σ.active c
+  | .mod m => σ.subMod m c
+  | .par m p => σ.subPar m p c
+
+theorem listens_iff (σ : State) (c : Conn) (m : Mod) (p : Par) :
+    listens σ c m p = true ↔ ∃ s, tableHas σ c s = true ∧ covers s m p = true := by
+  constructor
+  · intro h
+    simp only [listens, Bool.or_eq_true] at h
+    rcases h with (h | h) | h
+    · exact ⟨.all, h, rfl⟩
+    · exact ⟨.mod m, h, by simp [covers]⟩
+    · exact ⟨.par m p, h, by simp [covers]⟩
+  · rintro ⟨s, h1, h2⟩
+    cases s with
+    | all => simp_all [listens, tableHas]
+    | mod m' => simp_all [listens, tableHas, covers]
+    | par m' p' => simp_all [listens, tableHas, covers]
+
+/-- the scope a request thread is activating, from its marker to its reply -/
+def activating : HPc → Option Scope
+  | .start (.activate s) => some s
+  | .wantSub (.activate s) => some s
+  | .relSub (.activate s) => some s
+  | .wantUpd s _ _ => some s
+  | .snapMod s _ _ _ => some s
+  | .snapSend s _ _ _ _ _ => some s
+  | .relDisp (.activate s) _ => some s
+  | .rep (.activate s) _ => some s
+  | _ => none
+
+/-- the request whose table change is done and whose positive reply is still to come -/
+def ending : HPc → Option Req
+  | .relSub r => some r
+  | .relDisp r true => some r
+  | .rep r true => some r
+  | _ => none
+
+def goodMod (cfg : Cfg) (s : Scope) (m : Mod) : Prop := ∀ p ∈ scopePars cfg s m, covers s m p = true
+
+theorem goodMod_scopeMods (cfg : Cfg) (s : Scope) : ∀ m ∈ scopeMods cfg s, goodMod cfg s m := by
+  intro m hm p hp
+  cases s <;> simp_all [scopeMods, scopePars, covers]
+
+/-- what is still to be sent in a snapshot lies in the scope being activated -/
+def covInv (cfg : Cfg) : HPc → Prop
+  | .wantUpd s m rest => ∀ m' ∈ m :: rest, goodMod cfg s m'
+  | .snapMod s m ps rest => (∀ p ∈ ps, covers s m p = true) ∧ ∀ m' ∈ rest, goodMod cfg s m'
+  | .snapSend s m p _ ps rest => covers s m p = true ∧ (∀ p' ∈ ps, covers s m p' = true) ∧ ∀ m' ∈ rest, goodMod cfg s m'
+  | _ => True
+
+def liveOf (σ : State) : Conn → List Scope := silentMon.after silentMon.init σ.trace
+
+structure SilentInv (cfg : Cfg) (σ : State) : Prop where
+  acc : silentMon.acceptsFrom silentMon.init σ.trace = true
+  tbl : ∀ c s, tableHas σ c s = true → s ∈ liveOf σ c
+  act : ∀ c s, activating (σ.hpc c) = some s → s ∈ liveOf σ c
+  snd : ∀ k m p e l, σ.upc k = .sending m p e l → ∀ c ∈ l, listens σ c m p = true
+  clr : ∀ c r, ending (σ.hpc c) = some r → ∀ a, ends r a = true → tableHas σ c a = false
+  cov : ∀ c, covInv cfg (σ.hpc c)
+
+theorem silentInv_init (cfg : Cfg) (hs us cache) : SilentInv cfg (init hs us cache) := by
+  constructor <;> intros <;> simp_all [init, Mon.acceptsFrom, tableHas, activating, ending, covInv]
+  rename_i c s h; cases s <;> simp [tableHas] at h
+
+
 end Frappy.Activate
